@@ -264,14 +264,19 @@ type tSErrField struct {
 // ---- SafeFormatter scripts -----------------------------------------------------
 
 // tSafeFmt executes a script of SafeWriter calls (see universe.go: step kinds).
+//
+// The build context is reached through a func value: when the struct is
+// printed by reflection (bad verb, Unsafe wrapper) a func prints as one
+// address, whereas a pointer would dump the harness's own bookkeeping.
 type tSafeFmt struct {
 	steps []*D
-	bc    *buildCtx
+	bc    func() *buildCtx
 }
 
 func (t tSafeFmt) SafeFormat(p redact.SafePrinter, verb rune) {
+	bc := t.bc()
 	for _, st := range t.steps {
-		t.bc.runStep(p, st, verb)
+		bc.runStep(p, st, verb)
 	}
 }
 
